@@ -20,7 +20,7 @@ import re
 LEVEL = 'other'
 UNITS = ['verif:inst_grid.cpp']
 ENGINES = 'E-STATE + E-ORD + E-INT + E-SIB over romea-facts'
-TECHNIQUE = 'wrapped index evaluated for every size 1..8, offset and logical index; arguments of the offset helper belong to its axis, shortcut branches of translate() and validity flags of the index map evaluated (E-STEP) on (size, offset, translation) triples, virtual dispatch of the accessors the derived grid redefines, early return from a non-last axis phase with a satisfiable guard, contiguous row fill through the wrap map for every axis length and offset, axis-block guard evaluated on 1-cell axes, sign-blind partial blanking range fact, offset helper evaluated on every (n, current, d) cell, sweep of every function read (and its in-repo callees) for frozen function-local statics, single precision inside double computations, lossy copy constructors, presence- or argument-keyed member caches, reference members bound to constructor arguments, loop accumulators that are members, members derived in the constructor and not refreshed by setters, results returned by reference to a member buffer, members filled from an argument under a condition that ignores it, hidden non-virtual base members, self-bound reference members, reductions that accumulate in float; blanking stores resolved through helper calls (default-argument fact), reduced-offset fact, signed-modulus lint only where the value becomes unsigned; wrap-count of every cell access (virtual helpers dispatched to the override); structural dataflow on the instantiated AST of translate()/wrapCellIndexes_(): per-axis loop classification, congruence of the offset update (exact algebra), taint and unsigned-modulus lints'
+TECHNIQUE = 'byte fills (memset with a value other than 0) as a fact over every function of the class, guards of every whole-grid clear inside translate() evaluated on translations shorter than the axis, wrapped index evaluated for every size 1..8, offset and logical index; arguments of the offset helper belong to its axis, shortcut branches of translate() and validity flags of the index map evaluated (E-STEP) on (size, offset, translation) triples, virtual dispatch of the accessors the derived grid redefines, early return from a non-last axis phase with a satisfiable guard, contiguous row fill through the wrap map for every axis length and offset, axis-block guard evaluated on 1-cell axes, sign-blind partial blanking range fact, offset helper evaluated on every (n, current, d) cell, sweep of every function read (and its in-repo callees) for frozen function-local statics, single precision inside double computations, lossy copy constructors, presence- or argument-keyed member caches, reference members bound to constructor arguments, loop accumulators that are members, members derived in the constructor and not refreshed by setters, results returned by reference to a member buffer, members filled from an argument under a condition that ignores it, hidden non-virtual base members, self-bound reference members, reductions that accumulate in float; blanking stores resolved through helper calls (default-argument fact), reduced-offset fact, signed-modulus lint only where the value becomes unsigned; wrap-count of every cell access (virtual helpers dispatched to the override); structural dataflow on the instantiated AST of translate()/wrapCellIndexes_(): per-axis loop classification, congruence of the offset update (exact algebra), taint and unsigned-modulus lints'
 EXPLANATION = ('translate() and the wrap map are analysed per instantiation: axis blocks, their d-driven loops (sign and trip count), the blanking '
                'stores with their enclosing loops, index start/advance expressions (as exact congruences modulo the axis size), the offset update '
                '(must read the old offset and be congruent to old+d), and taint of offset-derived values into the re-wrapping index function.')
